@@ -374,6 +374,15 @@ func (in *instance) after() (string, string) {
 		if o == nil {
 			return "harness", fmt.Sprintf("no observations for script %s (results: %d)", name, len(in.t.Results))
 		}
+		if len("script-"+name) > 255 {
+			// no directory of that name can be made: the script cannot be set up and
+			// is reported failed; all that is asked is that the rest is unaffected
+			// and everything is cleaned away (checked below)
+			if o.Verdict != string(tsh.Fail) {
+				return "long-name", fmt.Sprintf("script %s...: its work directory name is longer than a file name may be, yet it is reported %s", name[:20], o.Verdict)
+			}
+			continue
+		}
 		// (1) same results as when run alone
 		if want, ok := in.solo[k]; ok && o.String() != want {
 			class := "interference"
@@ -587,6 +596,10 @@ func scenarios(th bool) []scenario {
 	for _, p := range [][]string{{"P", "EX", "EX"}, {"F", "EX"}, {"K", "EX", "B"}, {"EX", "T", "EX"}} {
 		scs = append(scs, scenario{Scripts: p, Bound: 0, OneAtATime: true}, scenario{Scripts: p, Bound: 0, OneAtATime: true, Keep: true})
 	}
+	// a file name so long that "script-<name>" is no legal directory name any more:
+	// that script cannot be set up, and everything must still be cleaned away
+	long := strings.Repeat("n", 250)
+	scs = append(scs, scenario{Scripts: []string{"P", "P"}, Bound: 1, Bases: []string{"plain", long}}, scenario{Scripts: []string{"P", "F", "P"}, Bound: 0, Bases: []string{long, "other", "plain"}})
 	scs = append(scs, scenario{Scripts: []string{"P", "F"}, Bound: b2, Bases: []string{"foo#1", "foo#1"}}, scenario{Scripts: []string{"P", "E", "F", "P"}, Bound: 0, Bases: []string{"foo#1", "foo", "foo", "foo"}})
 	// single scripts: every exit path on its own (cleanup with one script)
 	for k := range kinds {
